@@ -68,6 +68,7 @@ class Env:
         self.tables = {}  # name -> Tab
         self.bind = {}  # "$name" -> SymInt | int
         self.metadata = None
+        self.count_mode = False  # order of unordered tables is irrelevant (count-only VCs)
 
     def val(self, v):
         if isinstance(v, str):
@@ -227,7 +228,9 @@ def sem_seq(node, env, prefer="l"):
         return relmodel.sort(t, [((lambda v, e=e: exprsem.z3_of_ast(e, v, bind)), asc) for e, asc in node[2]])
     if op == "slice":
         if not t.ordered:
-            raise Skip("slice of an unordered relation is indeterminate")
+            if not env.count_mode:
+                raise Skip("slice of an unordered relation is indeterminate")
+            t = relmodel.index_order(t)
         start = z3.IntVal(0) if node[2] is None else exprsem.zval(node[2], bind)
         stop = None if node[3] is None else exprsem.zval(node[3], bind)
         return relmodel.slice_(t, start, stop)
